@@ -555,7 +555,7 @@ class Interp(object):
         cmpops = ("Eq", "Ne", "Lt", "Le", "Gt", "Ge", "Cmp")
         if getattr(self.policy, "witness", False) and op not in cmpops and \
                 all((not isinstance(t, Tok)) or (t.kind == "I" and isinstance(t.val, int)) for t in (a, b)) and \
-                op.replace("WithOverflow", "").replace("Unchecked", "") in ("Shl", "Shr", "BitOr", "BitAnd", "BitXor", "Mul", "Add", "Sub") and \
+                op.replace("WithOverflow", "").replace("Unchecked", "") in ("Shl", "Shr", "BitOr", "BitAnd", "BitXor", "Mul", "Add", "Sub", "Div", "Rem") and \
                 not (op.startswith("Add") and isinstance(a, Tok) and isinstance(b, int) and 0 <= b <= 2):
             # witness mode: integer tokens are their representatives
             a = a.val + a.off if isinstance(a, Tok) else a
@@ -619,6 +619,14 @@ class Interp(object):
             if not 0 <= y < bits:
                 raise Panic("overflow", self.where(), "shift by %d" % y)
             r = x >> y
+        elif base in ("Div", "Rem"):
+            if y == 0:
+                raise Panic("div_by_zero", self.where(), "%s by zero" % base)
+            # Rust: truncating division, remainder takes the sign of the dividend
+            q = abs(x) // abs(y)
+            if (x < 0) != (y < 0):
+                q = -q
+            r = q if base == "Div" else x - q * y
         else:
             raise Inconclusive("binary operator %s" % op, self.where())
         lo, hi = (-(1 << (bits - 1)), (1 << (bits - 1)) - 1) if signed else (0, (1 << bits) - 1)
